@@ -3,7 +3,7 @@
     ALL grammars; that the emitted text parses, type-checks, compiles and is gofmt-canonical is decided
     by running the Go tools on every file the correspondence runs generate (all eight option sets, plus
     streams for many rules, imports, header comments, odd characters, comments in predicates). *)
-From PegV Require Import Base.Tac Spec.Syntax Model.Analyses Model.EmitFacts Model.Emit Model.Link Model.Optimize Proofs.EmitProofs Proofs.EmitWF Proofs.EmitUse Proofs.LinkProofs.
+From PegV Require Import Base.Tac Spec.Syntax Model.Analyses Model.EmitFacts Model.Emit Model.Link Model.Optimize Model.SEmit Proofs.EmitProofs Proofs.EmitWF Proofs.EmitUse Proofs.EmitScope Proofs.OptCases Proofs.SEmitShape Proofs.LinkProofs.
 Open Scope Z_scope.
 
 (** The type chosen for rule constants (and, since the fix, for the memo key's rule field) holds every
@@ -57,6 +57,40 @@ Theorem C08_declared_variables_used :
     Forall (fun o => match o with Some F => du F = true | None => True end) (emit_all g ast inline asu undef).
 Proof. exact emit_all_uses. Qed.
 Print Assumptions C08_declared_variables_used.
+
+(** Go rejects an identifier that is not declared.  Every positionN / tokenIndexN a rule function reads - in a
+    restore, a memoize call, an add or a capture - was declared earlier in the same statement list or in one that
+    encloses it ([vok [] [] F]: checked from the empty scope, a block's declarations ending with the block); for
+    every grammar, option set and label table, names without a definition included. *)
+Theorem C08_variables_declared_before_use :
+  forall g ast inline asu undef,
+    Forall (fun o => match o with Some F => vok [] [] F = true | None => True end) (emit_all g ast inline asu undef).
+Proof. exact emit_all_scoped. Qed.
+Print Assumptions C08_variables_declared_before_use.
+
+(** Go rejects a switch that has the same constant in two case clauses.  No switch node of the tree the -switch pass
+    builds has a character in two clauses, or twice in one: the clauses come from the alternatives whose first sets
+    meet no later alternative's, and the keys of a clause are the elements of one interval list.  The emitter writes
+    the keys of a node as they are ([C08_case_keys_copied]).  For every grammar whose characters and ranges are code
+    points in order (no switch node before the pass). *)
+Theorem C08_switch_cases_distinct :
+  forall g, (forall r b, nth_error g r = Some (RBody b) -> ranges_ok b = true) ->
+  forall r b, nth_error (optimize g) r = Some (RBody b) -> sw_distinct b.
+Proof. exact optimize_cases_distinct. Qed.
+Print Assumptions C08_switch_cases_distinct.
+Theorem C08_case_keys_copied :
+  forall f cs ko l, map fst (fst (scases_emit f cs ko l)) = map fst cs.
+Proof. exact scases_keys. Qed.
+Print Assumptions C08_case_keys_copied.
+
+(** Go wants a function with a result to end in a terminating statement: every rule function ends in a return
+    (statement level, Model/SEmit.v; [forget] maps these files onto the skeletons above, C01_statements_refine_skeleton) *)
+Theorem C08_functions_end_in_return :
+  forall g ptx ast inline asu undef,
+    Forall (fun o => match o with Some F => exists pre b, F = (pre ++ [SReturn b])%list | None => True end)
+           (semit_all g ptx ast inline asu undef).
+Proof. exact functions_end_in_return. Qed.
+Print Assumptions C08_functions_end_in_return.
 
 Theorem C08_switch_keeps_two_alternatives :
   forall g, grammar_alt2 g -> grammar_alt2 (optimize g).
